@@ -1,7 +1,7 @@
 import Driver.Util
 /-!
 Suite `e2e` (C10; also C01's end state and C12's forced encryption): two real sessions / a web seed.
-obs: `done=<0|1> disk=<ok|bad|-> enc=<ok|plaintext-peer|-> err=<class|->`.
+obs: `done=<0|1> disk=<ok|bad|-> enc=<ok|plaintext-peer|-> err=<class|-> have=<n> good=<n>` (pieces claimed / pieces correct on disk; echoed, oracle have ≤ good).
 With an honest full source reachable the property predicts `done=1 disk=ok` and no plaintext peer under force.
 -/
 namespace Driver.Suites.E2E
@@ -17,10 +17,14 @@ def step (op implObs : String) : String × List String × List String :=
   let disk := tokVal implObs "disk"
   let enc := tokVal implObs "enc"
   let err := tokVal implObs "err"
+  let hav := tokVal implObs "have"
+  let good := tokVal implObs "good"
+  let tail := if hav = "" then "" else s!" have={hav} good={good}"
   let viol :=
     (if done ≠ "1" then [s!"C10 download-did-not-complete src={kvStr toks "src"} seq={kvStr toks "seq"} magnet={kvStr toks "magnet"} err={err}"] else []) ++
     (if done = "1" && disk ≠ "ok" then ["C10 completed-with-wrong-files", "C01 completed-with-wrong-files"] else []) ++
-    (if enc = "plaintext-peer" then ["C12 forced-encryption-plaintext-peer"] else [])
+    (if enc = "plaintext-peer" then ["C12 forced-encryption-plaintext-peer"] else []) ++
+    (if parseNat! hav > parseNat! good then [s!"C01 more-pieces-claimed-than-correct-on-disk have={hav} good={good}"] else [])
   let files := commaList (kvStr toks "files")
   let tags :=
     (if files.length ≥ 2 then ["nontrivial"] else []) ++
@@ -28,7 +32,7 @@ def step (op implObs : String) : String × List String × List String :=
     (if files.any (·.startsWith "0:") then ["branch:empty-file"] else []) ++
     [s!"branch:src-{kvStr toks "src"}", s!"branch:enc-{kvStr toks "enc"}"] ++
     (if kvStr toks "magnet" = "1" then ["branch:magnet"] else []) ++ (if kvStr toks "seq" = "1" then ["branch:sequential"] else [])
-  (s!"done=1 disk=ok enc={if enc = "plaintext-peer" then "ok" else enc} err=-", viol, tags)
+  (s!"done=1 disk=ok enc={if enc = "plaintext-peer" then "ok" else enc} err=-{tail}", viol, tags)
 
 def suite : Suite where
   name := "e2e"
